@@ -32,7 +32,8 @@ def oracle_cases(ctx, flags_list, relation, n_corpus, n_mut, origins=None, n_ins
         for flags in flags_list:
             k += 1
             cases.append(dict(program=text, inp=inp, outp=outp, flags=flags, relation=relation, seed=ctx.seed * 1000003 + k,
-                              n_inst=n_inst, facts_over=facts_over, label=f"corpus:{origin}", one_to_one=one_to_one))
+                              n_inst=(24 if origin == "extra" else n_inst), facts_over=facts_over, label=f"corpus:{origin}",
+                              one_to_one=one_to_one))
     pool = pref or H
     for j in range(n_mut):
         base = rng.choice(pool)[1]
